@@ -328,13 +328,20 @@ def impl_text_layer(values):
     -> [{'hex', 'k', 'lit', 'back': [code points], 'field': bits}]"""
     from pybufrkit.utils import JSON_DUMPS_KWARGS
     from pybufrkit.bitops import get_bit_writer
+    import ast
     out = []
     for v in values:
         lit = json.dumps(v, **JSON_DUMPS_KWARGS)
+        tok = '{!r}'.format(v)     # the value token of FlatTextRenderer / NestedTextRenderer
+        try:
+            tok_back = ast.literal_eval(tok)
+            tok_back = tok_back.hex() if isinstance(tok_back, bytes) else repr(tok_back)
+        except Exception as e:  # noqa
+            tok_back = None
         try:
             s = json.loads(lit)
         except Exception as e:  # noqa
-            out.append({'hex': v.hex(), 'k': len(v), 'lit': lit, 'back': None, 'field': None, 'exc': repr(e)[:100]})
+            out.append({'hex': v.hex(), 'k': len(v), 'lit': lit, 'back': None, 'field': None, 'exc': repr(e)[:100], 'repr': tok, 'repr_back': tok_back})
             continue
         for k in sorted({len(v), len(v) + 3, max(len(v) - 2, 0)}):
             if k == 0:
@@ -345,7 +352,8 @@ def impl_text_layer(values):
                 field = w.bit_stream.bin
             except Exception as e:  # noqa
                 field = None
-            out.append({'hex': v.hex(), 'k': k, 'lit': lit, 'back': [ord(c) for c in s] if isinstance(s, str) else None, 'field': field})
+            out.append({'hex': v.hex(), 'k': k, 'lit': lit, 'back': [ord(c) for c in s] if isinstance(s, str) else None, 'field': field,
+                        'repr': tok, 'repr_back': tok_back})
     return out
 
 
